@@ -358,7 +358,7 @@ pub fn check_feasible(ctx: &InsertionContext, rendered: &Rendered, what: &str, p
         }
         // hard-constraint violations right after a repair-based operator share one root cause (see known findings)
         let family_sig = format!("feasibility@{op_family}");
-        if kind == "feasibility" && known_open(property, &family_sig) {
+        if kind == "feasibility" && known_open(property, &family_sig) && std::env::var("VERIF_NO_FAMILY").is_err() {
             stats.known_hit(&family_sig);
             stats.class(&format!("excluded_known.detail.{sig}@{op_family}"));
             tainted = true;
